@@ -8,21 +8,21 @@ from ..model import AnalysisError, attr_chain, call_name, if_chain, stmts_in
 EXPLANATION = (
     "Static ownership/effect rules (no execution). An aliasing bug needs a shared edge: a mutable object reachable from "
     "both the result and an operand. R18.1 decides the absence of such edges per derivation operation. (a) copy "
-    "constructors: in every property_by_object, a field whose kind is mutable (assigned somewhere from Point/Matrix/Color/"
-    "Viewbox/list/dict/Path constructors) must be rebuilt through a copying constructor, never assigned from the source's "
-    "field directly. (b) segment constructors wrap every point parameter in Point(...), so Cls(self.start, ...) copies. (c) "
-    "every class that copy() can meet (segments, Path, shapes, Subpath, Group, Use, Text, Image, Matrix, Point, Length) "
-    "defines __copy__, or holds no mutable field under Python's default shallow copy (list subclasses share their items). "
-    "(d) Path(...) from a Path, Subpath or Shape copies the segments it takes unless the provider returns fresh ones "
-    "(provider summaries: which segments() implementations return stored objects). (e) Group copies its children "
-    "element-wise; Path.__copy__ refreshes every element; Subpath.__copy__ copies its path. R18.2 operand write-sets: "
-    "non-in-place operators (*, @, +, -, abs, ~, unary -, /) write no attribute of self/other and call no in-place method on "
-    "them; they may mutate only a local bound to a copy. R18.3 adoption: a non-in-place operator must not store an operand "
-    "object itself inside its result (segment + segment, path + segment, segment + path). "
-    "A non-in-place operator that returns one of its operands (`return self` under some guard) is reported by R18.2: result and "
-    "operand are then one object. "
-    "Not decided: arbitrary mutation "
-    "histories (but without a shared edge no history can alias)."
+    "constructors: in every property_by_object, a field whose kind is mutable (assigned somewhere from "
+    "Point/Matrix/Color/Viewbox/list/dict/Path constructors) must be rebuilt through a copying constructor, never assigned "
+    "from the source's field directly. (b) segment constructors wrap every point parameter in Point(...), so "
+    "Cls(self.start, ...) copies. (c) every class that copy() can meet (segments, Path, shapes, Subpath, Group, Use, Text, "
+    "Image, Matrix, Point, Length) defines __copy__, or holds no mutable field under Python's default shallow copy (list "
+    "subclasses share their items). (d) Path(...) from a Path, Subpath or Shape copies the segments it takes unless the "
+    "provider returns fresh ones (provider summaries: which segments() implementations return stored objects). (e) Group "
+    "copies its children element-wise; Path.__copy__ refreshes every element; Subpath.__copy__ copies its path. R18.2 "
+    "operand write-sets: non-in-place operators (*, @, +, -, abs, ~, unary -, /) write no attribute of self/other and call "
+    "no in-place method on them; they may mutate only a local bound to a copy. R18.3 adoption: a non-in-place operator must"
+    " not store an operand object itself inside its result (segment + segment, path + segment, segment + path). A non-in-"
+    "place operator that returns one of its operands (`return self` under some guard) is reported by R18.2: result and "
+    "operand are then one object. R18.4: the decompositions that Path(x), + and == read (segments()) save and restore every"
+    " field of their shape they overwrite on every exit (the rule of C06 R06.4 under this property: an operand must come "
+    "back unchanged). Not decided: arbitrary mutation histories (but without a shared edge no history can alias)."
 )
 TECHNIQUE = (
     "static analysis (no execution): ownership/aliasing analysis - copy constructors per mutable field kind, element-wise copy recognition, operand write-sets and returned-operand lint for non-in-place operators, adoption of operand objects"
@@ -32,7 +32,7 @@ ASSUMPTIONS = [
     "Path(seg1, seg2, ...), Path(list) and Path(tuple) adopt their arguments by design (constructor from parts); this is documented and not reported.",
     "Image.image (a PIL image) is shared by copies by documented design.",
 ]
-FLOORS = {"R18.1": 40, "R18.2": 20, "R18.3": 3}
+FLOORS = {"R18.1": 40, "R18.2": 20, "R18.3": 3, "R18.4": 1}
 
 MUTABLE_CTORS = {"Point", "Matrix", "Color", "Viewbox", "Path", "list", "dict", "set", "Group", "Subpath"}
 COPYING_CTORS = {"Point", "Matrix", "Color", "Viewbox", "Length", "dict", "Angle", "str", "float", "int", "bool"}
@@ -45,6 +45,7 @@ def run(ctx):
     ctx.rule("R18.1", "ownership of mutable field edges per derivation")
     ctx.rule("R18.2", "operand write-sets of non-in-place operators")
     ctx.rule("R18.3", "operators do not adopt operand objects")
+    ctx.rule("R18.4", "a decomposition read by Path(x), + and == leaves its source's fields as it found them")
     kinds = field_kinds(ctx)
     copy_constructors(ctx, kinds)
     segment_ctors(ctx)
@@ -53,6 +54,8 @@ def run(ctx):
     containers(ctx)
     operand_writes(ctx)
     adoption(ctx)
+    from .c06 import save_restore
+    save_restore(ctx, "R18.4")
 
 
 # --------------------------------------------------------------------------- kinds
